@@ -25,6 +25,8 @@ Case = {"kind": "ds"|"dsu"|"cg",           Dataset() | Dataset(default_union=Tru
                                              doc = a hand-made patch document, lines in the driver's token form; clean = it is
                                              the diff d1 → d2 respelled (rows shuffled / repeated, `<_:b>` labels, comments, blank
                                              lines, H / TX / TC / TA / PA / PD rows in between): applied to d1 it must give d2
+        "htext": [{"row": [6 JSON values], "ascii": bool, "sep": str, "pad": [str, str]}…] | absent   round h: hand-made hextuples
+                                             rows (one document line each), parsed one by one by the real parser
 Terms are tokens into the vocabulary below (i = IRI, l = literal, b = blank node); a graph name
 shares its token with the same term used inside triples.
 
@@ -34,6 +36,8 @@ Observations (all canonical up to ONE renaming of blank nodes, graph names inclu
                          children, hext 6th element, JSON-LD top-level @graph/@id, patch rows)
                  route = quads of Dataset().parse(data=output, format=F)
   patch pair:    rows of d1.serialize(format="patch", target=d2) and the quads after applying them to a copy of d1
+  hext text:     every line of the hextuples document, character for character (compared with hexLine of the model, as a
+                 multiset), and for each hand-made row outcome + the quad the real parser makes of it (compared with parseHexLine)
   patch text:    the whole document written under the case's keywords, line by line (header rows, TX, A rows, D rows, TC;
                  rows sorted inside a run of the same operation) and outcome + quads of parsing the hand-made document into a
                  copy of d1 — compared with serializeDoc / parseDoc of the model
@@ -372,6 +376,54 @@ def _gen_opts(rng, F):
 
 
 
+def _gen_htext(rng):
+    """hand-made hextuples rows: the six columns in the spellings the row reader distinguishes"""
+    rows = []
+    iri = lambda: str(TERM[rng.choice(["i1", "i2", "i3", "i4", "i6", "i13", "i15"])])       # noqa: E731
+    lex = lambda: str(TERM[rng.choice(list(LITS))])                                          # noqa: E731
+    for _ in range(rng.choice([1, 2, 3])):
+        s_ = rng.choice([iri(), iri(), "_:b1", "_:c10", "_b2", "_", "", None] if rng.random() < 0.3 else [iri(), "_:b1", "_:b2"])
+        p_ = rng.choice([iri(), iri(), iri(), "", None]) if rng.random() < 0.2 else iri()
+        k = rng.randrange(9)
+        if k == 0:
+            v, dt, lg = iri(), "globalId", rng.choice(["", None, "en"])
+        elif k == 1:
+            v, dt, lg = rng.choice(["_:b2", "b2", "_b3", "_:c11"]), "localId", ""
+        elif k == 2:
+            v, dt, lg = lex(), str(XSD.string), rng.choice(["", None])
+        elif k == 3:
+            v, dt, lg = lex(), str(RDF) + "langString", rng.choice(["en", "fr", "de-at"])
+        elif k == 4:
+            v, dt, lg = lex(), rng.choice([E + "dt", str(XSD.string), "urn:x:dt"]), rng.choice(["", "en"])
+        elif k == 5:
+            v, dt, lg = "", rng.choice([str(XSD.string), E + "dt", "globalId"]), ""
+        elif k == 6:
+            v, dt, lg = rng.choice([lex(), None]), rng.choice(["", None, E + "dt"]), ""
+        elif k == 7:
+            v, dt, lg = "x\u00e9\u2603\U0001F600/\"\\\n\t\x01", E + "dt", ""
+        else:
+            v, dt, lg = lex(), E + "dt", ""
+        g_ = rng.choice(["", "", None, iri(), iri(), "_:b1", "_:b2", "_b1", "_"])      # no empty label: BNode("") is a fresh node
+        row = [s_, p_, v, dt, lg, g_]
+        r = rng.random()
+        if r < 0.08:
+            row = row[:5]
+        elif r < 0.16:
+            row = row + [rng.choice(["extra", "", None])]
+        rows.append({"row": row, "ascii": rng.random() < 0.6, "sep": rng.choice([", ", ", ", ",", " , ", ",\t"]),
+                     "pad": [rng.choice(["", "", " "]), rng.choice(["\n", "\n", "", " \n", "\r\n"])]})
+    return rows
+
+
+def hext_row_text(h):
+    body = json.dumps(h["row"], ensure_ascii=h["ascii"], separators=(h["sep"], ": "))
+    return h["pad"][0] + body + h["pad"][1]
+
+
+def _cps(x):
+    return "-" if x == "" else ".".join(str(ord(c)) for c in x)
+
+
 WEIRD_HEADS = ["AA", "AD", "DA", "DD", "ADA", "X", "a", "d", "PAD", "PDA", "PAP", "PX", "TAX", "TCP", "TXT", "Hello", "HA", "T", "P"]
 
 
@@ -497,7 +549,8 @@ def gen_case(rng, tier, i):
     if d2 is not None and not src.get("anon_graph"):
         ptext = _gen_ptext(rng, quads, d2["quads"])
     return {"kind": kind, "reg": reg, "quads": quads, "api": api, "d2": d2, "enc": enc, "opt": opt,
-            "binds": binds, "src": src, "io": iox, "pmode": pmode, "ptext": ptext}
+            "binds": binds, "src": src, "io": iox, "pmode": pmode, "ptext": ptext,
+            "htext": _gen_htext(rng) if rng.random() < 0.5 else None}
 
 
 # ------------------------------------------------------------------ building the datasets through the public API
@@ -1037,6 +1090,7 @@ def run_impl(case):
     io_axis = case.get("io")
     opt_axis = case.get("opt")
     tmpfiles = []
+    hext_text = [None]
 
     def tmp(suffix):
         fd, path = tempfile.mkstemp(prefix="c06-", suffix=suffix)
@@ -1205,6 +1259,8 @@ def run_impl(case):
             viol.append(f"error-{F}: parse of own output raised {err!r}"[:300])
             continue
         obs.append(line(quad_rows(got, bmap)))
+        if F == "hext":
+            hext_text[0] = text
         if not ok:
             viol.append(f"roundtrip-{F}: quads after {F} round trip"
                         + (f" with encoding={enc!r}" if enc else "") + " differ from the dataset: expected "
@@ -1298,6 +1354,25 @@ def run_impl(case):
         except Exception as e:  # noqa: BLE001
             obs.append("ERR-pparse:" + _exc(e))
             viol.append(f"error-patchtext: {e!r}"[:300])
+    if _hext_rows_ok(case):
+        stats["hext_text"] = 1
+        if hext_text[0] is None:
+            obs.append("ERR-hextdoc")
+        else:
+            # each line in the spelling CPython's json.dumps gives its six columns: a JSON-equivalent respelling by
+            # rdflib (ensure_ascii=False, the orjson branch) is not a difference; how many lines are already spelled
+            # exactly so is counted (all of them, with the code as it is)
+            raw = [ln + "\n" for ln in hext_text[0].split("\n") if ln]
+            try:
+                rows = [json.dumps(json.loads(ln)) + "\n" for ln in raw]
+            except ValueError:
+                rows = raw
+            stats["hext_text_rows"] = len(rows)
+            stats["hext_text_rows_spelled_as_json_dumps"] = sum(1 for a, b in zip(raw, rows) if a == b)
+            obs.append(" ".join(sorted(_cps(r) for r in rows)))
+    for h in case.get("htext") or []:
+        stats["hext_hand_rows"] = stats.get("hext_hand_rows", 0) + 1
+        obs.append(_hext_parse_one(hext_row_text(h), stats))
     for path in tmpfiles:
         try:
             os.unlink(path)
@@ -1340,6 +1415,68 @@ def _eff_quads(case):
     return case["quads"]
 
 
+
+def _hext_rows_ok(case):
+    """the hextuples document is compared line by line unless a term has a spelling of its own per run"""
+    return not (case.get("src") or {}).get("anon_graph")
+
+
+def _hnode(t):
+    return ("B:" if isinstance(t, BNode) else "I:") + _cps(str(t))
+
+
+def _hext_parse_one(text, stats):
+    """one hand-made row through the real parser: outcome + the quad, in the driver's notation"""
+    d = Dataset()
+    try:
+        d.parse(data=text, format="hext")
+    except ValueError:                 # json.JSONDecodeError is a ValueError
+        stats["hext_hand_ValueError"] = stats.get("hext_hand_ValueError", 0) + 1
+        return "ValueError"
+    except IndexError:
+        stats["hext_hand_IndexError"] = stats.get("hext_hand_IndexError", 0) + 1
+        return "IndexError"
+    except Exception as e:  # noqa: BLE001
+        return "Other:" + type(e).__name__
+    qs = list(d.quads((None, None, None, None)))
+    if len(qs) != 1:
+        return "quads:%d" % len(qs)
+    s_, p_, o_, c = qs[0]
+    cid = c.identifier if isinstance(c, Graph) else c
+    if isinstance(o_, Literal):
+        if o_.language:
+            o = "G:%s:%s" % (_cps(str(o_)), _cps(o_.language))
+        elif o_.datatype is not None:
+            o = "T:%s:%s" % (_cps(str(o_)), _cps(str(o_.datatype)))
+        else:
+            o = "P:" + _cps(str(o_))
+    else:
+        o = "N:" + _hnode(o_)
+    stats["hext_hand_ok"] = stats.get("hext_hand_ok", 0) + 1
+    return "ok %s ; %s ; %s ; %s" % (_hnode(s_), _cps(str(p_)), o, "U" if cid is None or cid == DEFAULT_ID else _hnode(cid))
+
+
+def _vocab_line(case):
+    toks = sorted({t for q in _eff_quads(case) for t in q if t != "D"} | {g for g in case["reg"] if g != "D"})
+    ents = []
+    for t in toks:
+        v = TERM.get(t)
+        if v is None:
+            continue
+        if isinstance(v, BNode):
+            ents.append("%s B %s" % (t, _cps(str(v))))
+        elif isinstance(v, Literal):
+            if v.language:
+                ents.append("%s G %s %s" % (t, _cps(str(v)), _cps(v.language)))
+            elif v.datatype is not None:
+                ents.append("%s T %s %s" % (t, _cps(str(v)), _cps(str(v.datatype))))
+            else:
+                ents.append("%s P %s" % (t, _cps(str(v))))
+        else:
+            ents.append("%s I %s" % (t, _cps(str(v))))
+    return "loadvocab " + " ; ".join(ents)
+
+
 def _ptext_of(case):
     pt = case.get("ptext")
     if pt is None or case["kind"] == "cg" or case.get("d2") is None or (case.get("src") or {}).get("anon_graph"):
@@ -1379,6 +1516,10 @@ def model_lines(case):
                   "pdoc %s %d %s %s" % (op if op in ("add", "remove") else "-", int("target" in pt["mode"]),
                                         h(pt["hid"]), h(pt["hprev"])),
                   "pparse " + " ; ".join(" ".join(ln) for ln in pt["doc"])]
+    if _hext_rows_ok(case):
+        lines += [_vocab_line(case), _src_line("load", kind, case["reg"], quads, _cg_default(case)), "hextdoc"]
+    for h in case.get("htext") or []:
+        lines.append("hparse " + _cps(hext_row_text(h)))
     return lines
 
 
@@ -1387,6 +1528,12 @@ def select_model_obs(case, out):
     res = []
     for cmd, o in zip(lines, out):
         if cmd.startswith("load"):
+            continue
+        if cmd == "hextdoc":
+            res.append(" ".join(sorted(o.split(" "))) if o else "")
+            continue
+        if cmd.startswith("hparse"):
+            res.append(o)
             continue
         if cmd.startswith("pdoc"):
             res.append(_doc_line([x for x in o.split(" ; ") if x]))
@@ -1436,6 +1583,11 @@ def shrink(case):
             yield {**case, "ptext": {**pt, "mode": "target"}}
         if pt["hid"] is not None or pt["hprev"] is not None:
             yield {**case, "ptext": {**pt, "hid": None, "hprev": None}}
+    ht = case.get("htext")
+    if ht:
+        yield {**case, "htext": None}
+        for i in range(len(ht)):
+            yield {**case, "htext": ht[:i] + ht[i + 1:]}
     if d2 is not None:
         yield {**case, "d2": None}
         for i in range(len(d2["quads"])):
